@@ -7,7 +7,7 @@ use std::collections::VecDeque;
 use std::rc::Rc;
 
 /// A function form of the library that can be built from a flat coefficient list.
-pub trait Piece: Evaluate + Clone + Send + Sync + std::fmt::Debug + 'static {
+pub trait Piece: Evaluate + Translate + Clone + Send + Sync + std::fmt::Debug + 'static {
     /// Number of f64 fields (0 = variable, PolyN).
     const NC: usize;
     fn kind() -> Kind;
@@ -85,7 +85,7 @@ impl<T: Piece> Piece for Log<T> {
     }
 }
 
-impl<T: Piece> Piece for IntOfLog<T> {
+impl<T: Piece + Copy> Piece for IntOfLog<T> {
     const NC: usize = T::NC + 1;
     fn kind() -> Kind {
         match T::kind() {
@@ -319,11 +319,25 @@ pub trait Target {
     fn piece(&self, i: usize, x: f64) -> f64;
     /// A fresh `PiecewiseEvaluator` as a closure.
     fn evaluator<'a>(&'a self) -> Box<dyn FnMut(f64) -> f64 + 'a>;
+    /// A fresh `PiecewiseEvaluator` on the sub-slice `segments[from..]` of this function's storage.
+    fn evaluator_from<'a>(&'a self, from: usize) -> Box<dyn FnMut(f64) -> f64 + 'a>;
+    /// An independent function made of a copy of `segments[from..]` (the reference for such an evaluator).
+    fn tail_clone(&self, from: usize) -> Box<dyn Target>;
+    /// Change the function in place through its public API / public fields.
+    fn mutate(&mut self, how: Mutation, by: f64);
     /// A fresh `evaluate_v` stream over the given feed.
     fn stream<'a>(&'a self, feed: SimFeed) -> Box<dyn Iterator<Item = f64> + 'a>;
     /// A fresh `evaluate_v` stream over `xs`, consumed in one go by the given consumer method of
     /// the concrete iterator type the library returns.
     fn stream_batch(&self, mode: crate::cursor::BatchMode, xs: &[f64]) -> BatchOut;
+}
+
+#[derive(Clone, Copy, Debug, PartialEq, Eq)]
+pub enum Mutation {
+    /// `Translate::translate(by)` on the piecewise function
+    Translate,
+    /// `segments[i].end += by` for every segment (public field; order and ties are preserved)
+    ShiftEnds,
 }
 
 pub struct BatchOut {
@@ -363,6 +377,23 @@ impl<T: Piece> Target for Piecewise<T> {
     fn evaluator<'a>(&'a self) -> Box<dyn FnMut(f64) -> f64 + 'a> {
         let mut ev = PiecewiseEvaluator::new(&self.segments);
         Box::new(move |x| ev.evaluate(x))
+    }
+    fn evaluator_from<'a>(&'a self, from: usize) -> Box<dyn FnMut(f64) -> f64 + 'a> {
+        let mut ev = PiecewiseEvaluator::new(&self.segments[from..]);
+        Box::new(move |x| ev.evaluate(x))
+    }
+    fn tail_clone(&self, from: usize) -> Box<dyn Target> {
+        Box::new(Piecewise { segments: self.segments[from..].to_vec() })
+    }
+    fn mutate(&mut self, how: Mutation, by: f64) {
+        match how {
+            Mutation::Translate => self.translate(by),
+            Mutation::ShiftEnds => {
+                for s in self.segments.iter_mut() {
+                    s.end += by;
+                }
+            }
+        }
     }
     fn stream<'a>(&'a self, feed: SimFeed) -> Box<dyn Iterator<Item = f64> + 'a> {
         Box::new(self.evaluate_v(feed))
